@@ -385,7 +385,7 @@ def waitn_owners(w, home):
     if o in ('asan', 'tsan', 'ubsan'):
         s = sanitizer_owners(w, home)
         return s | ({'C11'} if 'C13' in s else set())
-    if o in ('waitn-result', 'waitn-order', 'leftover-registration', 'mode'):
+    if o in ('waitn-result', 'waitn-order', 'leftover-registration', 'mode', 'waitn-asleep-ready'):
         return {'C11'}
     if o in ('deadlock', 'no-progress'):
         return {'C11'}
